@@ -1,12 +1,15 @@
-(* C06 - wire format of MAC commands (frames: see below) against the
-   table-driven specification Mac/Spec.v.  Statement file. *)
+(* C06 - wire format of the 29 MAC-command payloads against the independent
+   table-driven specification Mac/Spec.v (layouts, CID table, semantic maps).
+   Statement file: every theorem is closed by [exact] of a lemma from theories/.
+   (Frame headers, join payloads and CFList: see the C06 part of Frame/FrameSpecProofs.v.) *)
 From Coq Require Import List NArith ZArith Bool.
-From LW Require Import Base.Outcome Base.Bytes Mac.Commands Mac.Spec Mac.Stream Mac.RegistryProofs.
+From LW Require Import Base.Outcome Base.Bytes Mac.Commands Mac.Spec Mac.Stream
+     Mac.RegistryProofs Mac.DecProofs Mac.EncProofs Mac.PackProofs.
 From LWGen Require Import RegistryGen.
 Import ListNotations.
 Open Scope N_scope.
 
-(* every (direction, CID) in the live registry is the command the specification
+(* every (direction, CID) in the LIVE registry is the command the specification
    assigns to it, and its registered size is the size of the specified layout *)
 Theorem C06_registry_complete : forall up cid sz k,
   reg_lookup builtin_registry up cid = Some (sz, k) ->
@@ -14,3 +17,44 @@ Theorem C06_registry_complete : forall up cid sz k,
   sz = Z.of_nat (byte_size (layout_of k)) /\ sz = kind_size k.
 Proof. exact registry_complete. Qed.
 Print Assumptions C06_registry_complete.
+
+(* ... and every command the specification defines is registered *)
+Theorem C06_registry_covers_spec :
+  forallb spec_entry_ok spec_registry = true.
+Proof. exact (proj2 registry_matches_spec). Qed.
+Print Assumptions C06_registry_covers_spec.
+
+(* ENCODE: for every payload value of the Go types (all uint8/uint32/int8/int/Duration
+   field values), whatever the encoder accepts is bit for bit the specified layout of
+   the value's fields (little-endian, field order and widths from the table,
+   frequency in 100 Hz / 200 Hz units, 6-bit signed margin, 1/256 s fraction) *)
+Theorem C06_encode_is_spec : forall v bs,
+  wf_go v = true -> kind_of v <> KProprietary -> enc v = Ok bs ->
+  bs = spec_encode (layout_of (kind_of v)) (fields_of v).
+Proof. exact enc_eq_spec. Qed.
+Print Assumptions C06_encode_is_spec.
+
+(* DECODE: for every payload kind and EVERY byte string, the decoder returns the
+   specified field values with RFU bits ignored when the length is the layout's,
+   and an error otherwise.  One- and two-byte payloads: all 2^8 / 2^16 strings by
+   kernel computation (19 + 3 kinds); 3-5 byte payloads by div/mod arithmetic. *)
+Theorem C06_decode_is_spec : forall k bs,
+  k <> KProprietary -> Forall (fun b => b < 256) bs ->
+  dec k bs =
+  if Nat.eqb (length bs) (byte_size (layout_of k))
+  then Ok (value_of k (spec_decode (layout_of k) bs)) else Err.
+Proof. exact dec_eq_spec. Qed.
+Print Assumptions C06_decode_is_spec.
+
+(* the layout interpreter itself is an inverse pair on in-width field values *)
+Theorem C06_layout_inverse : forall L vals,
+  bit_size L = 8 * N.of_nat (byte_size L) -> in_widths L vals = true ->
+  spec_decode L (spec_encode L vals) = vals.
+Proof. exact spec_decode_encode. Qed.
+Print Assumptions C06_layout_inverse.
+
+(* non-vacuity: an in-range LinkADRReq meets the hypotheses and has the expected bytes *)
+Example C06_example :
+  wf_go (PLinkADRReq 5 3 (true :: true :: repeat false 14) 6 1) = true /\
+  enc (PLinkADRReq 5 3 (true :: true :: repeat false 14) 6 1) = Ok [0x53; 0x03; 0x00; 0x61].
+Proof. split; vm_compute; reflexivity. Qed.
